@@ -162,9 +162,23 @@ def correspond(ctx, scale):
     F = factories(rng)
     nwalk = (2 if not ctx.thorough else 12) * scale
     for f in F:
-        for wi in range(nwalk):
+        for wi in list(range(nwalk)) + ([nwalk + 1] if f['kmeans'] else []):
             mod = f['mk']()
             dist['walks'] += 1
+            restored = False
+            if wi == nwalk + 1:
+                # a FRESH module restored from the checkpoint of an initialised one (round 10, seed C08-j): the checkpoint carries the initialisation, so
+                # the k-means exception is not granted to the restored module - its first pure call leaves the restored codebook alone
+                try:
+                    donor = f['mk']()
+                    donor.train()
+                    for _ in range(2):
+                        donor(f['mkx']() if f.get('mkx') else (torch.randn(2, f['dim'], 3) if f['image'] else torch.randn(2, 4, f['dim'])))
+                    mod.load_state_dict(copy.deepcopy(donor.state_dict()))
+                    restored = True
+                    dist['walks_restored_from_initialised_checkpoint'] = dist.get('walks_restored_from_initialised_checkpoint', 0) + 1
+                except Exception:
+                    continue
             alphabet = ['train', 'train', 'train-bwd', 'eval', 'eval'] + (['frozen', 'frozen', 'ce-eval', 'ce-frozen'] if f['freeze'] else []) + (['decode'] if f['decode'] else [])
             alphabet = alphabet + ['bad-eval']
             ops = [rng.choice(alphabet) for _ in range(rng.choice([5, 8, 12]))]
@@ -182,6 +196,9 @@ def correspond(ctx, scale):
             last_idx = None
             trace = []
             never_initted = {k for k, v in blob(mod).items() if k.endswith('initted') and not bool(v.all())}
+            if restored:
+                never_initted = set()
+                ops = [o_ for o_ in (['eval', 'frozen', 'decode', 'eval'] if f['freeze'] else ['eval', 'decode', 'eval']) if o_ != 'decode' or f['decode']] + [o_ for o_ in ops if o_ != 'bad-eval']
             for oi, op in enumerate(ops):
                 x = f['mkx']() if f.get('mkx') else (torch.randn(2, f['dim'], 3) if f['image'] else torch.randn(2, 4, f['dim']))
                 if rng.random() < 0.3:
